@@ -108,6 +108,8 @@ func RunC15(t *testing.T) {
 	b := SharedBase()
 	w := DefaultWeights()
 	w.CreateBatch, w.Block, w.PerturbPct = 10, 26, 5
+	w.SnipePct = 30
+	w.Reimport = 0 // the export point is the subject of this check
 	w.MaxAuctions = 4
 	body := func(rt *rapid.T, replayOps []Op, split int) {
 		g := NewGen(w)
@@ -221,7 +223,7 @@ func RunC15(t *testing.T) {
 			if len(vs) > 0 {
 				return false
 			}
-			return !(o.Kind == OpBlock && !sta.Res.OK)
+			return !(sta.Op.Kind == OpBlock && !sta.Res.OK)
 		}
 		if rt != nil {
 			n2 := rapid.IntRange(3, 30).Draw(rt, "ops-after-export")
